@@ -36,7 +36,7 @@ func validRecordTextRef(t []byte) bool {
 func genRecordText(r *rand.Rand) []byte {
 	alpha := []string{"a", "Z", "0", " ", "/", "@", "é", "世", "\u007f", "h1:", "=", "+", "v1.0.0", "example.com/m",
 		// code points at every UTF-8 length boundary, the replacement character itself, separators that are not control characters
-		"\u0080", "\u07ff", "\u0800", "\ufffd", "\uffff", "\U00010000", "\U0010ffff", "\ue000", "\u00a0", "\u2028", "\u0085", "~", "\u0020"}
+		"\u0080", "\u07ff", "\u0800", "\ufffd", "\uffff", "\U00010000", "\U0010ffff", "\ue000", "\u00a0", "\u2028", "\u0085", "\u009f", "~", "\u0020"}
 	if r.IntN(6) == 0 {
 		alpha = append(alpha, string(rune(0x20+r.IntN(0x10ffff-0x20)))) // any code point (surrogates become U+FFFD, which is valid text)
 	}
@@ -523,12 +523,21 @@ func runC09(c *mon.Ctx) {
 				case 0: // only the padding character differs
 					mj = append([]byte(nil), js...)
 					mj[len(mj)-2] = "A/ -=+x"[r.IntN(7)]
+				case 2: // one character in the middle is not base64
+					mj = append([]byte(nil), js...)
+					mj[1+r.IntN(40)] = "!*. ~"[r.IntN(5)]
 				case 1: // only the last significant character differs
 					mj = append([]byte(nil), js...)
 					mj[len(mj)-3] = "ABCDEFGHIJKLMNOPQRSTUVWXYZabcdefghijklmnopqrstuvwxyz0123456789+/=-"[r.IntN(66)]
 				}
-				var hm tlog.Hash
-				if json.Unmarshal(mj, &hm) == nil && !bytes.Equal(mj, []byte("null")) {
+				// the receiver already holds a hash: "avoid writing anything to *h unless the entire input is well-formed"
+				held := tlog.Hash(refmerkle.Leaf(mj))
+				hm := held
+				uerr := json.Unmarshal(mj, &hm)
+				if uerr != nil && hm != held {
+					c.Violation("hash-changed-by-json-text-that-was-rejected", id, map[string]any{"text": mon.Q(mj), "err": uerr.Error()})
+				}
+				if uerr == nil && !bytes.Equal(mj, []byte("null")) {
 					var str string
 					dec, derr := []byte(nil), error(nil)
 					if json.Unmarshal(mj, &str) != nil {
